@@ -203,7 +203,7 @@ func (o *C07) direct(w *World, n int) {
 			k := []int{0, 1, 2, 3, 7, 100}[o.rng.Intn(6)]
 			for j := 0; j < k; j++ {
 				b.Transactions = append(b.Transactions, &mhub2types.SendToExternal{Id: uint64(j + 1), ExternalRecipient: o.randAddr(),
-					Token: mhub2types.ExternalToken{Amount: o.randInt(255), ExternalTokenId: b.ExternalTokenId}, Fee: mhub2types.ExternalToken{Amount: o.randInt(255), ExternalTokenId: b.ExternalTokenId}})
+					Token: mhub2types.ExternalToken{Amount: o.randInt(256), ExternalTokenId: b.ExternalTokenId}, Fee: mhub2types.ExternalToken{Amount: o.randInt(256), ExternalTokenId: b.ExternalTokenId}})
 			}
 			w.St.Probe("direct-batch")
 			if !o.compare(w, "batch", func() []byte { return b.GetCheckpoint(gid) }, ext.BatchHash(batchCallOf(&b), g), fmt.Sprintf("direct: %d transfers, nonce %d, timeout %d", k, b.BatchNonce, b.Timeout)) {
@@ -218,10 +218,10 @@ func (o *C07) direct(w *World, n int) {
 			o.rng.Read(pl)
 			c.Payload = pl
 			for j := o.rng.Intn(4); j > 0; j-- {
-				c.Tokens = append(c.Tokens, mhub2types.ExternalToken{Amount: o.randInt(255), ExternalTokenId: o.randAddr()})
+				c.Tokens = append(c.Tokens, mhub2types.ExternalToken{Amount: o.randInt(256), ExternalTokenId: o.randAddr()})
 			}
 			for j := o.rng.Intn(4); j > 0; j-- {
-				c.Fees = append(c.Fees, mhub2types.ExternalToken{Amount: o.randInt(255), ExternalTokenId: o.randAddr()})
+				c.Fees = append(c.Fees, mhub2types.ExternalToken{Amount: o.randInt(256), ExternalTokenId: o.randAddr()})
 			}
 			w.St.Probe("direct-contract-call")
 			if !o.compare(w, "contract-call", func() []byte { return c.GetCheckpoint(gid) }, ext.LogicCallHash(logicCallOf(&c), g), fmt.Sprintf("direct: payload %d bytes, scope %d bytes, %d tokens, %d fees", len(pl), len(sc), len(c.Tokens), len(c.Fees))) {
